@@ -28,6 +28,14 @@ def parseTy : Nat → List Char → Option (Ty × List Char)
     | 'i' :: r => let (d, rest) := takeDigits r; some (.int (numOf d), rest)
     | 'f' :: r => let (d, rest) := takeDigits r; some (.float (numOf d), rest)
     | 'n' :: r => let (d, rest) := takeHexName r; some (.named (argHex (String.ofList d)), rest)
+    | 'N' :: r =>
+      -- a type under a name of its own: typing looks through the name
+      let (_, rest) := takeHexName r
+      (match rest with
+       | '(' :: rest => match parseTy fuel rest with
+         | some (t, ')' :: rest') => some (t, rest')
+         | _ => none
+       | _ => none)
     | 'p' :: r =>
       let (d, rest) := takeDigits r
       match rest with
